@@ -3649,3 +3649,56 @@ func zeroValueVar(f *chk.Fn, e ast.Expr) bool {
 	})
 	return declared && !touched
 }
+
+// valueForms follows a returned value back through result variables and single-definition locals (helpers expanded in
+// place hand their answer over that way): the expressions that can be the value, each with the site where it is taken.
+func valueForms(g *chk.Graph, f *chk.Fn, e ast.Expr, at chk.Site, depth int) []resultForm {
+	id, ok := ast.Unparen(e).(*ast.Ident)
+	if !ok || depth <= 0 {
+		return []resultForm{{e, at}}
+	}
+	v, ok := f.ObjOf(id).(*types.Var)
+	if !ok || v.IsField() || v.Parent() == nil || v.Pkg() == nil || v.Parent() == v.Pkg().Scope() || f.IsNilLit(id) {
+		return []resultForm{{e, at}}
+	}
+	if d := f.LocalDef(id); d != nil {
+		st := g.FactSite(d)
+		if st.B == nil {
+			st = at
+		}
+		if _, isCall := ast.Unparen(d).(*ast.CallExpr); isCall {
+			return []resultForm{{e, at}} // defined by a call: the variable is the value
+		}
+		return valueForms(g, f, d, st, depth-1)
+	}
+	var out []resultForm
+	n := 0
+	for _, a := range assignsTo(f, v) {
+		as, isAs := a.(*ast.AssignStmt)
+		if !isAs || len(as.Lhs) != len(as.Rhs) {
+			if _, isSpec := a.(*ast.ValueSpec); isSpec {
+				continue
+			}
+			if _, isDecl := a.(*ast.DeclStmt); isDecl {
+				continue
+			}
+			return []resultForm{{e, at}}
+		}
+		aa := a
+		sites := g.Find(func(m ast.Node) bool { return m == aa })
+		st := at
+		if len(sites) > 0 {
+			st = sites[0]
+		}
+		for i, l := range as.Lhs {
+			if lid, isId := l.(*ast.Ident); isId && f.ObjOf(lid) == types.Object(v) {
+				n++
+				out = append(out, valueForms(g, f, as.Rhs[i], st, depth-1)...)
+			}
+		}
+	}
+	if n == 0 {
+		return []resultForm{{e, at}}
+	}
+	return out
+}
